@@ -35,23 +35,63 @@ def bounds(tier):
 
 def required_cells(tier):
     return ["distinct-codebase-orders", "distinct-platform-orders", "distinct-scandir-orders", "hashseed", "shuffle", "creation-order",
-            "toml-permuted", "duplicates-present", "cov-compared", "clustering-compared", "mode-flag-with-repeated-define", "file-symlinks", "cross-language-alias"]
+            "toml-permuted", "duplicates-present", "cov-compared", "clustering-compared", "mode-flag-with-repeated-define", "file-symlinks", "cross-language-alias",
+            "platform-names-case-variants", "pass-flags-reordered", "pass-headers-attributed", "clustering-with-case-variant-names"]
 
 
-def gen_case(rng):
+PASS_CONFIG = """[[compiler.gcc.parser]]
+flags = ["-fpass-a"]
+action = "append_const"
+dest = "passes"
+const = "pa"
+
+[[compiler.gcc.parser]]
+flags = ["-fpass-b"]
+action = "append_const"
+dest = "passes"
+const = "pb"
+
+[[compiler.gcc.passes]]
+name = "pa"
+defines = ["PASS_A"]
+include_paths = ["@ROOT@/passinc/a"]
+
+[[compiler.gcc.passes]]
+name = "pb"
+defines = ["PASS_B"]
+include_paths = ["@ROOT@/passinc/b"]
+"""
+
+
+def gen_case(rng, index=1):
     nplat = rng.choice([2, 3, 3, 4])
     case = forest.gen(rng, n_tus=rng.randint(nplat, nplat + 2), n_platforms=nplat, findable=True)
     for tu in case["tus"]:
         tu["search"] = [["I", d] for _, d in tu["search"]]
+    if index % 2 == 0:
+        # platform names that differ only in letter case
+        ren = dict(zip(sorted({t["platform"] for t in case["tus"]}), ["gpu", "GPU", "Gpu", "gPU"]))
+        for tu in case["tus"]:
+            tu["platform"] = ren[tu["platform"]]
+    # two extra compiler passes (user configuration in <root>/.cbi/config), each with its own search directory that holds
+    # a header of the same name; the order of the two enabling flags is one of the perturbations
+    case["passes"] = True
+    for tu in case["tus"]:
+        case["files"][tu["file"]] = case["files"][tu["file"]] + [
+            ["chain", [["if", "defined(PASS_A) || defined(PASS_B)", [["include", "a", "ph.h"]]]]],
+            ["chain", [["ifdef", "PH_A", [["code"]]], ["else", None, [["code"]]]]],
+            ["chain", [["ifdef", "PH_B", [["code"]]], ["else", None, [["code"]]]]]]
     # a mode-enabling flag plus a macro given twice with different values: the first definition must win
     # whatever the hash seed (the gcc premise run does not see these extra arguments)
     for tu in case["tus"]:
         if rng.random() < 0.7:
-            tu["extra_args"] = ["-fopenmp", "-DDUP=1", "-O2", "-DDUP=2", "-DDUP2=b", "-DDUP2=a"]
+            tu["extra_args"] = ["-fopenmp", "-DDUP=1", "-O2", "-DDUP=2", "-DDUP2=b", "-DDUP2=a", "-fpass-a", "-fpass-b"]
         case["files"][tu["file"]] = case["files"][tu["file"]] + [
             ["chain", [["if", "DUP == 1", [["code"]]], ["elif", "DUP == 2", [["code"]]], ["else", None, [["code"]]]]],
             ["chain", [["ifdef", "_OPENMP", [["code"]]], ["else", None, [["code"]]]]]]
     case["extra"] = dict(c06.EXTRA)
+    case["extra"]["passinc/a/ph.h"] = "#define PH_A 1\nint pha;\n"
+    case["extra"]["passinc/b/ph.h"] = "#define PH_B 1\nint phb1;\nint phb2;\n"
     # file symlinks: a second name for a compiled file and for a header, and a name with another language's extension
     case["links"] = {}
     t0 = case["tus"][0]["file"]
@@ -95,6 +135,10 @@ def build(case, base, order_seed):
             f.write(text)
     for d in forest.INC_DIRS + ["src"]:
         os.makedirs(os.path.join(root, d), exist_ok=True)
+    if case.get("passes"):
+        os.makedirs(os.path.join(root, ".cbi"), exist_ok=True)
+        with open(os.path.join(root, ".cbi", "config"), "w") as f:
+            f.write(PASS_CONFIG.replace("@ROOT@", os.path.realpath(root)))
     links = sorted(case.get("links", {}).items())
     random.Random(order_seed + 1).shuffle(links)
     for l, t in links:
@@ -106,6 +150,10 @@ def build(case, base, order_seed):
 
 
 def write_toml(case, base, root, perm_seed):
+    if perm_seed % 2:
+        # the two pass-enabling flags in the other order
+        flip = lambda a: [x for x in a if not x.startswith("-fpass-")] + [x for x in reversed(a) if x.startswith("-fpass-")]
+        case = dict(case, tus=[dict(tu, extra_args=flip(tu["extra_args"])) if tu.get("extra_args") else tu for tu in case["tus"]])
     c08.write_dbs(case, base)
     plats = sorted({t["platform"] for t in case["tus"]})
     random.Random(perm_seed).shuffle(plats)
@@ -178,6 +226,12 @@ def check_case(ctx, case, base, cls, do_clustering=False):
         cells.add("cross-language-alias")
     if any(tu.get("extra_args") for tu in case["tus"]):
         cells.add("mode-flag-with-repeated-define")
+        if case.get("passes"):
+            cells.add("pass-flags-reordered")
+    if "GPU" in {t["platform"] for t in case["tus"]}:
+        cells.add("platform-names-case-variants")
+        if do_clustering:
+            cells.add("clustering-with-case-variant-names")
     runs = []
     cur_order = 0
     for tag, v in variants:
@@ -216,6 +270,9 @@ def check_case(ctx, case, base, cls, do_clustering=False):
         cells.add("distinct-scandir-orders")
     if "coverage" in base_obs:
         cells.add("cov-compared")
+    att = base_obs.get("attribution", {})
+    if all(any(v for v in att.get(f"passinc/{x}/ph.h", {}).values()) for x in "ab"):
+        cells.add("pass-headers-attributed")
     if do_clustering:
         cells.add("clustering-compared")
     same_hash_runs = [o["_stdout"] for t, v, o in runs if "error" not in o and v["perm"] == 0 and v["shuffle"] is None and v["order"] == 0]
@@ -237,7 +294,7 @@ def run_shard(ctx):
     base = os.path.join(ctx.scratch, "c14")
     rng = ctx.rng("cases")
     for i in range(b["cases"]):
-        case = gen_case(rng)
+        case = gen_case(rng, i)
         if ctx.mine(i):
             check_case(ctx, case, base, "R", do_clustering=(i < b["clustering"]))
     shutil.rmtree(base, ignore_errors=True)
